@@ -41,6 +41,17 @@ CHECKS["C11"] = dict(
     design="DESIGN.md section 3 / C11",
 )
 
+CHECKS["C15"] = dict(
+    technique="typestate dataflow analysis (cache states N/P/D + obligation bit) over every public method of SVG from every entry state, context-sensitive inlining of self-calls, def-use provenance for cache writes; structural return discipline for inplace/copy branches",
+    text="A history property decided for all histories at once: the lazily flushed shape cache is a three-state protocol, every public operation is "
+         "analysed from all three states, so any sequence of operations keeps tree and cache consistent iff no rule fires (no tree access in the "
+         "dirty state, no reset of a dirty cache, no exit with a cache shadowing a modified tree, primitives honour their contracts, in-place "
+         "returns self, copy returns the processed clone with every parameter forwarded).",
+    note="Not decided: value-level fidelity of to_element(from_element(x)); interleaving operations inside a consumer's loop over a traversal generator. "
+         "Frozen exemptions: xpath, xpath_one, resolve_url are pure queries. Trusted: lxml mutator name list in sa/typestate.py.",
+    design="DESIGN.md section 3 / C15",
+)
+
 NOT_APPLICABLE = {}
 
 
